@@ -10,7 +10,7 @@ from __future__ import annotations
 import os
 import sys
 
-__all__ = ["Skip", "skip", "assume", "forked", "fixlen", "concrete", "verdict", "WITNESS", "NOSTUBS", "symbolic_run"]
+__all__ = ["Skip", "skip", "assume", "forked", "fixlen", "concrete", "note", "verdict", "WITNESS", "NOSTUBS", "symbolic_run"]
 
 WITNESS = os.environ.get("VF_WITNESS") == "1"
 NOSTUBS = os.environ.get("VF_NOSTUBS") == "1"
@@ -77,6 +77,15 @@ def concrete(fn, *args, **kwargs):
         with NoTracing():
             return fn(*args, **kwargs)
     return fn(*args, **kwargs)
+
+
+NOTES = []
+
+
+def note(text: str) -> None:
+    """Attach a short reason to the current concrete run (reported by vf.replay; used to tell
+    recorded known findings apart from other violations)."""
+    NOTES.append(text)
 
 
 def symbolic_run() -> bool:
